@@ -344,7 +344,7 @@ class Parser:
             search_pattern = re.compile(r"[\'\"]")
         else:
             # Removes only leading and trailing quotes. Quotes inside a string are kept.
-            search_pattern = re.compile(r'(^[\'\\"]{1}|[\'\\"]{1}$)')
+            search_pattern = re.compile(r'(^[\'"]{1}|[\'"]{1}$)')
 
         return re.sub(search_pattern, "", arg)
 
